@@ -37,7 +37,9 @@ ASSUMPTIONS = [
 def cases():
     # the keywords of the bodies are written in drawn spellings (the population must not depend on them)
     return st.fixed_dictionaries({'tape': oalsyn.tapes(900, 120), 'order': st.lists(st.integers(0, 10 ** 6), max_size=6),
-                                  'kwcase': st.one_of(st.just([0]), st.lists(st.integers(0, 3), min_size=1, max_size=9))})
+                                  'kwcase': st.one_of(st.just([0]), st.lists(st.integers(0, 3), min_size=1, max_size=9)),
+                                  # 0: one statement per line; 1: one line, line breaks inside the 'end if/for/while' tokens
+                                  'style': st.sampled_from([0, 0, 1])})
 
 
 _ooa = {}
@@ -476,7 +478,7 @@ def check_action(fx, c, info, res_classes):
 
 def run_case(case, res=None):
     try:
-        fx = prebuildfix.Fixture(case['tape'], case['order'], case=case.get('kwcase'), texts=case.get('texts'), states=case.get('states'))
+        fx = prebuildfix.Fixture(case['tape'], case['order'], case=case.get('kwcase'), texts=case.get('texts'), states=case.get('states'), style=case.get('style', 0))
     except Exception as e:
         raise Violation('fixture-exception:' + exc_bucket(e), case, repr(e))
     info = dict(case, bodies=fx.source)
